@@ -71,6 +71,9 @@ structure TypeDecl where
   nilSafe : Bool
   /-- the functions a `Copy` of a value of this type passes through (indices into `Tables.helpers`) -/
   helpers : List Nat
+  /-- list / map types: static class and static type of the ELEMENTS (`.iface`: any node type) -/
+  elemKind : Kind := .value
+  elemSty : Nat := 0
 deriving Repr
 
 def TypeDecl.dflt : TypeDecl :=
@@ -244,6 +247,44 @@ def allHandledL (T : Tables) : List Val → Bool
   | [] => true
   | k :: ks => allHandled T k && allHandledL T ks
 end
+
+/-- static class and static type of kid `i` of a node of shape `sh` and type `ty` -/
+def Tables.kidKind (T : Tables) (sh : Shape) (ty i : Nat) : Kind × Nat :=
+  match sh with
+  | .obj => ((T.field ty i).kind, (T.field ty i).sty)
+  | _ => ((T.decl ty).elemKind, (T.decl ty).elemSty)
+
+mutual
+/-- `v` is a legal value for a position of static class `k` / static type `sty` of the SCHEMA: scalars in value and
+opaque positions; nil anywhere; a node of exactly the static type (pointer, slice, map positions) or of any node type
+(interface positions), of the declared shape, whose kids are legal for their fields / element type. No typed-nil
+pointer. This is what Go's type system guarantees for every model the parser or a builder produces, up to typed
+nils and the dynamic types stored in interface-typed fields (checked per case by the harness: `welltyped=1`). -/
+def wtAs (T : Tables) (k : Kind) (sty : Nat) : Val → Bool
+  | .scalar _ _ => k == .value || k == .opaque
+  | .nil => true
+  | .tnil _ => false
+  | .node sh _ ty _ kids =>
+      (match k with
+        | .iface => (T.decl ty).isNode
+        | .value => false
+        | .opaque => false
+        | _ => ty == sty) &&
+      (T.decl ty).shape == sh && wtKids T sh ty 0 kids
+def wtKids (T : Tables) (sh : Shape) (ty : Nat) : Nat → List Val → Bool
+  | _, [] => true
+  | i, x :: xs => wtAs T (T.kidKind sh ty i).1 (T.kidKind sh ty i).2 x && wtKids T sh ty (i + 1) xs
+end
+
+/-- a well-typed model (the root may be any node) -/
+def wellTyped (T : Tables) (v : Val) : Bool := wtAs T .iface 0 v
+
+/-- every type a well-typed value can contain has a case in `Copy`: node types, and the static types of all
+pointer / slice / map fields and of all slice / map elements -/
+def typesHandled (T : Tables) : Bool :=
+  T.types.all (fun d => (!d.isNode || d.copyCase) &&
+    d.fields.all (fun f => f.kind == .value || f.kind == .opaque || f.kind == .iface || (T.decl f.sty).copyCase) &&
+    (d.elemKind == .value || d.elemKind == .opaque || d.elemKind == .iface || (T.decl d.elemSty).copyCase))
 
 /-- the field is copied deeply, or shallowly where sharing is unobservable -/
 def Field.copyOK (f : Field) : Bool :=
